@@ -9,6 +9,7 @@ TRANSLATORS = [
     ('sdof_coeffs', 'py2coq_scalar', 'regenerate'),
     ('sdof_loop', 'py2coq_sdof_loop', 'regenerate'),
     ('quadrature', 'py2coq_numpy', 'regenerate'),
+    ('durations', 'py2coq_durations', 'regenerate'),
     ('design_spectra', 'py2coq_design', 'regenerate'),
     ('effects_ir', 'py2ir_effects', 'regenerate'),
 ]
